@@ -500,6 +500,8 @@ class String:
 
         level = md.level
         if level > 200:
+            if pushed:
+                md._pop(pushed)  # leave the caller's namespace as it was
             raise SystemError('infinite recursion in document template')
         md.level = level + 1
 
